@@ -100,6 +100,27 @@ func lineBufs(p *core.Prog, h *handlerInfo) map[*ssa.Function]map[ssa.Value]bool
 						work = append(work, callee)
 					}
 				}
+				// the line handed on by value (`*buf = appendX(*buf, …)`, strconv.Append style): the callee's slice parameter
+				// is the line there; when the callee takes its address (`&buf`), the variable it was spilled to is too
+				if i < len(callee.Params) && !isBuf(a) {
+					res := callee.Signature.Results()
+					if _, isSlice := callee.Params[i].Type().Underlying().(*types.Slice); isSlice && res.Len() == 1 && types.Identical(res.At(0).Type(), callee.Params[i].Type()) && isLineBufVal(fn, out[fn], a, map[ssa.Value]bool{}) {
+						prm := callee.Params[i]
+						changed := add(callee, prm)
+						if prm.Referrers() != nil {
+							for _, u := range *prm.Referrers() {
+								if st, ok := u.(*ssa.Store); ok && st.Val == ssa.Value(prm) {
+									if al, ok := st.Addr.(*ssa.Alloc); ok && add(callee, al) {
+										changed = true
+									}
+								}
+							}
+						}
+						if changed {
+							work = append(work, callee)
+						}
+					}
+				}
 			}
 		})
 		// closures see the parent's buffer through free variables
@@ -149,6 +170,10 @@ func isLineBufVal(fn *ssa.Function, bufs map[ssa.Value]bool, v ssa.Value, seen m
 	}
 	seen[v] = true
 	switch x := v.(type) {
+	case *ssa.Parameter:
+		// the line received by value
+		_, isSlice := x.Type().Underlying().(*types.Slice)
+		return isSlice && bufs[x]
 	case *ssa.Phi:
 		for _, e := range x.Edges {
 			if isLineBufVal(fn, bufs, e, seen) {
